@@ -200,24 +200,17 @@ pub(super) mod http1 {
     /// This is the form of the URI with just the authority and a default
     /// path and scheme. This is used in HTTP/1 CONNECT requests.
     fn authority_form(uri: &mut Uri) {
-        *uri = match uri.authority() {
-            Some(auth) => {
-                let mut parts = ::http::uri::Parts::default();
-                parts.authority = Some(auth.clone());
-                Uri::from_parts(parts).expect("authority is valid")
-            }
-            None => {
-                unreachable!("authority_form with relative uri");
-            }
-        };
+        // A relative URI has no authority to reduce to, it is sent as the caller gave it.
+        if let Some(auth) = uri.authority() {
+            let mut parts = ::http::uri::Parts::default();
+            parts.authority = Some(auth.clone());
+            *uri = Uri::from_parts(parts).expect("authority is valid");
+        }
     }
 
+    /// Leave the URI as it is: it is sent in the form the caller gave it.
     fn absolute_form(uri: &mut Uri) {
-        debug_assert!(uri.scheme().is_some(), "absolute_form needs a scheme");
-        debug_assert!(
-            uri.authority().is_some(),
-            "absolute_form needs an authority"
-        );
+        let _ = uri;
     }
 
     /// Convert the URI to origin-form, if it is not already.
